@@ -8,6 +8,7 @@ CONSTANTS
   MaxPert = 1
   Rounds = 20
   OwnConds <- OCAll
+  Presets <- BBoth
   GenSels <- BBoth
   ScaleRevs <- BBoth
 INVARIANTS Emit
